@@ -12,9 +12,11 @@ import (
 	"github.com/buildbarn/bb-storage/pkg/blobstore/configuration"
 	"github.com/buildbarn/bb-storage/pkg/blobstore/local"
 	"github.com/buildbarn/bb-storage/pkg/clock"
+	"github.com/buildbarn/bb-storage/pkg/digest"
+	"github.com/buildbarn/bb-storage/pkg/eviction"
 	"github.com/buildbarn/bb-storage/pkg/program"
-	bdpb "github.com/buildbarn/bb-storage/pkg/proto/configuration/blockdevice"
 	pb "github.com/buildbarn/bb-storage/pkg/proto/configuration/blobstore"
+	bdpb "github.com/buildbarn/bb-storage/pkg/proto/configuration/blockdevice"
 	"github.com/buildbarn/bb-storage/pkg/random"
 	"github.com/buildbarn/bb-storage/pkg/util"
 	"github.com/buildbarn/bb-storage/pkg/verifshim/vsched"
@@ -177,7 +179,7 @@ func openReal(g Geometry, m *Media, opt OpenOptions) *Store {
 	} else {
 		vsched.SetSpawnMode(vsched.SpawnDaemon)
 	}
-	_, err := configuration.NewBlobAccessFromConfiguration(grp, &pb.BlobAccessConfiguration{Backend: &pb.BlobAccessConfiguration_Local{Local: lc}}, cr)
+	info, err := configuration.NewBlobAccessFromConfiguration(grp, &pb.BlobAccessConfiguration{Backend: &pb.BlobAccessConfiguration_Local{Local: lc}}, cr)
 	vsched.SetSpawnMode(vsched.SpawnNormal)
 	vseam.Hooks = map[string]func(any) any{}
 	if err != nil {
@@ -188,6 +190,11 @@ func openReal(g Geometry, m *Media, opt OpenOptions) *Store {
 	}
 	if flat != nil {
 		s.Lock = lockOf(flat)
+	}
+	if g.ExistenceCache {
+		// what cas_blob_access_creator.go does for an existence_caching backend: the cache is keyed by the
+		// digest key format the nested backend's BlobAccessInfo announces
+		s.BA = blobstore.NewExistenceCachingBlobAccess(info.BlobAccess, digest.NewExistenceCache(VClock{}, info.DigestKeyFormat, 16, time.Hour, eviction.NewLRUSet[string]()))
 	}
 	if s.Lock == nil {
 		vsched.HarnessFail("could not obtain the store's lock from the real wiring")
